@@ -853,7 +853,8 @@ C08_NO_SHADOW_PART = (G, "gosym_part", dict(name="c08_cpp_no_shadowing", entry="
                                assumptions=["function bodies of binary/protocols.cc read back by zz_cppstmt.go; declarations recognised: `T name [= init]`, for-init, range-for, if-init",
                                             "single-level vectors only: the inner loop of a vector-of-vector conversion re-declaring i / item is the known finding c05:nested-vector-conversion-shadows-loop-variable"],
                                desc="record with 2 (3) fields whose names are symbolic over {value, stream, other, i, item, plain} and whose change from the previous version is symbolic (unchanged, removed, "
-                                    "int -> long, int? -> long?, int* -> long*), real Validate + ValidateEvolution: in every emitted serializer, compatibility serializer and reader / writer method no "
+                                    "int -> long, int? -> long?, int* -> long*), or two converted protocol steps (int -> long, plain and stream) whose NAMES are symbolic over {count, value, values, readBlockSuccessful, "
+                                    "stream, items}; real Validate + ValidateEvolution: in every emitted serializer, compatibility serializer and reader / writer method no "
                                     "declaration has the name of a parameter or of a variable declared in an enclosing or the same scope; the struct's operator==, read back with C++ name lookup (a "
                                     "parameter hides a member), compares each member of *this with the same member of the other object"))
 
